@@ -13,14 +13,25 @@ def tasks(tier, seed):
     steps = 3 if tier == 'quick' else 4
     src = open(os.path.join(HERE, 'harness', 'c15_stream.cpp')).read()
     ts = []
-    for first in range(9):
+    # quick: one task per first operation; thorough: one per (container size, first, second operation) - 243 tasks of
+    # about 13 000 paths each, which keeps every worker's memory small and all cores busy
+    combos = [(None, f, None) for f in range(9)] if tier == 'quick' else [(c, f, g) for c in (1, 2, 3) for f in range(9) for g in range(9)]
+    for c0, first, second in combos:
         txt = '#define STEPS %d\n#define FIRST_OP %d\n' % (steps, first) + src
-        ts.append(Task('stream.first_%s' % OPS[first].split('(')[0], txt, 'h_stream', None,
+        tid = 'stream.first_%s' % OPS[first].split('(')[0]
+        what = 'first = %s' % OPS[first]
+        csz = 'container size 1..3'
+        if second is not None:
+            txt = '#define CSIZE0 %d\n#define SECOND_OP %d\n' % (c0, second) + txt
+            tid = 'stream.c%d.%s.%s' % (c0, OPS[first].split('(')[0], OPS[second].split('(')[0])
+            what = 'first = %s, second = %s' % (OPS[first], OPS[second])
+            csz = 'initial container size %d' % c0
+        ts.append(Task(tid, txt, 'h_stream', None,
                        opts=dict(max_paths=400000, max_wall=900 if tier == 'quick' else 3400, validate=False,
                                  max_steps=3000000),
-                       desc='UncompressedFile, container size 1..3, %d operations (first = %s) with symbolic data bytes, '
+                       desc='UncompressedFile, %s, %d operations (%s) with symbolic data bytes, '
                             'chunk sizes 0..3 so that operations straddle container boundaries; every observer compared '
-                            'with a flat byte-queue model; final drain checks FIFO order' % (steps, OPS[first]),
+                            'with a flat byte-queue model; final drain checks FIFO order' % (csz, steps, what),
                        reach=('h_stream:end',), bounds='%d operations, chunks <= 3 bytes, containers 1..3 bytes' % steps,
                        kinds={'assert', 'memory', 'leak', 'uncaught_exception', 'terminate', 'deadlock'}))
     meta = dict(
